@@ -498,11 +498,11 @@ def run(chk):
     cpairs = []
     pool = depth1(S_ATOMS, with_func=True)
     small = [t for t in pool if len(tstr(t)) < 40]
-    for _ in range(4000 if quick else 60000):
+    for _ in range(4000 if quick else 30000):
         a = rng.choice(small)
         b = mutate(rng, a, S_ATOMS, True) if rng.random() < 0.7 else rng.choice(small)
         cpairs.append((a, b))
-    for _ in range(3000 if quick else 60000):
+    for _ in range(3000 if quick else 30000):
         a = rand_type(rng, rng.choice([2, 3]), S_ATOMS, True, True, ["X"])
         b = mutate(rng, a, S_ATOMS, True)
         cpairs.append((a, b))
